@@ -317,7 +317,23 @@ def replay(case):
         cleanup()
 
 
+def _kf1_witness_hash():
+    from ..core import jhash, load_findings
+
+    for e in load_findings(PID):
+        if e["id"] == "C05-KF1" and e.get("status") == "open":
+            return jhash(e["witness"]["module"])
+    return None
+
+
 def classify(case, msg):
+    """C05-KF1 is attributed only to its exact witness module on riscv:rvc."""
+    from ..core import jhash
+
+    if case.get("target") == "riscv:rvc" and "machine code vs IR semantics" in msg:
+        h = _kf1_witness_hash()
+        if h is not None and jhash(case["module"]) == h:
+            return "C05-KF1"
     return None
 
 
@@ -363,7 +379,13 @@ def _worker(arg):
                    classes=["target:" + case["target"], "levels_ok:%d" % ran, "defined_calls:%d" % min(defined, 4)])
         return msg
 
+    from ..core import open_finding_ids
+
     targets = ("x86_64", "riscv", "riscv:rvc") if riscv_available() else ("x86_64",)
+    if "C05-KF1" in open_finding_ids(PID):
+        # open finding on riscv:rvc with an unisolated root cause: the target is not generated (its witness is replayed)
+        targets = tuple(t for t in targets if t != "riscv:rvc")
+        stats.excluded["C05-KF1"] += n // 3
     try:
         fails = hyp_search(case_strategy(targets), prop, n, seed, stats, classify=classify)
     finally:
@@ -377,5 +399,8 @@ def run(ctx):
         raise HarnessError(reason)
     n = ctx.scale(96, 9600)
     ctx.pmap(_worker, [(subseed(ctx.seed, PID, w), max(1, n // 16)) for w in range(16)])
-    ctx.extra["targets_covered"] = ["x86_64"] + (["riscv", "riscv:rvc"] if riscv_available() else [])
+    from ..core import open_finding_ids
+
+    rv = ["riscv"] + ([] if "C05-KF1" in open_finding_ids(PID) else ["riscv:rvc"])
+    ctx.extra["targets_covered"] = ["x86_64"] + (rv if riscv_available() else [])
     ctx.extra["targets_not_covered"] = ["arm", "arm:thumb", "m68k", "mips (no emulator in the sandbox)"]
